@@ -1,4 +1,6 @@
-#![allow(dead_code, unused_imports, unexpected_cfgs, deprecated, clippy::all)]
+//! mc - model checker harness for simple-irc-server (properties C01-C20).
+//! The repository's real sources are compiled in via #[path]; see DESIGN.md.
+#![allow(dead_code, unused_imports, unused_variables, unused_mut, unexpected_cfgs, deprecated, clippy::all)]
 #[path = "/repo/src/command.rs"]
 mod command;
 #[path = "/repo/src/config.rs"]
@@ -17,21 +19,64 @@ use config::*;
 use state::*;
 use utils::*;
 
+mod bfs;
+mod canon;
+mod check;
+mod props;
+mod run;
+mod scn;
+mod spec;
 mod world;
+
+fn usage() -> ! {
+    eprintln!("usage: mc --property <ID> [--tier quick|thorough] | mc --replay <path> | mc --list");
+    std::process::exit(2);
+}
 
 fn main() {
     world::install_panic_hook();
-    let t = std::time::Instant::now();
-    let mut w = world::World::new(MainConfig::default(), 3);
-    w.register(0, "alice", "au").unwrap();
-    w.register(1, "bob", "bu").unwrap();
-    println!("{:#?}", w.take_all());
-    w.send(0, "JOIN #x").unwrap();
-    w.send(1, "JOIN #x").unwrap();
-    w.send(0, "PRIVMSG #x :hello there").unwrap();
-    w.send(1, "KICK #nochan alice").unwrap();
-    println!("{:#?}", w.take_all());
-    println!("{:?}", w.conns.iter().map(|c| c.life.clone()).collect::<Vec<_>>());
-    println!("{:#?}", w.snapshot());
-    println!("{:?}", t.elapsed());
+    let args: Vec<String> = std::env::args().collect();
+    let mut property = None;
+    let mut tier = std::env::var("VERIF_TIER").unwrap_or_else(|_| "quick".into());
+    let mut replay = None;
+    let mut i = 1;
+    while i < args.len() {
+        match args[i].as_str() {
+            "--property" => {
+                property = args.get(i + 1).cloned();
+                i += 2;
+            }
+            "--tier" => {
+                tier = args.get(i + 1).cloned().unwrap_or_else(|| usage());
+                i += 2;
+            }
+            "--replay" => {
+                replay = args.get(i + 1).cloned();
+                i += 2;
+            }
+            "--list" => {
+                for p in props::ALL {
+                    println!("{}", p);
+                }
+                return;
+            }
+            _ => usage(),
+        }
+    }
+    let verif_dir = std::env::var("VERIF_DIR").unwrap_or_else(|_| "/verif".into());
+    let seed: i64 = std::env::var("VERIF_SEED").ok().and_then(|s| s.parse().ok()).unwrap_or(0);
+    if let Some(path) = replay {
+        let code = run::replay(&path, &|p, n| props::find_scenario(p, n));
+        std::process::exit(code);
+    }
+    let property = property.unwrap_or_else(|| usage());
+    let plan = match props::plan(&property, &tier) {
+        Some(p) => p,
+        None => {
+            eprintln!("MACHINERY: no plan for property {}", property);
+            std::process::exit(2);
+        }
+    };
+    let code = run::execute(plan, &tier, seed, &verif_dir);
+    std::process::exit(code);
 }
